@@ -258,7 +258,7 @@ def doc_block(program, bid):
             complete = set(feas) == set(allc)
             if bd.rcc:
                 combos = allc          # every combination required; impossible ones make the design unsatisfiable
-                S = sum(allc.values()) if complete else sum(feas.values())
+                S = sum(allc.values())  # "reduced by excluded or impossible combinations [only] when complete crossing is not required"
             else:
                 combos = feas
                 S = sum(feas.values())
